@@ -163,6 +163,9 @@ def replay_cc(tmp, tier, seed, goenv):
         for lc, lm in zip(fc, fm):
             p = lc.rstrip("\n").split("\t")
             if len(p) == 3 and p[0] == "cc" and len(lc) < 3000:
+                # keep the generated Coq terms small: no long repeated lists
+                if any(int(m) > 300 for m in re.findall(r"rep:(\d+):", p[1])):
+                    continue
                 rows.append((p[1], lm.split("\t")[0]))
     rnd = random.Random(seed)
     if len(rows) > want:
